@@ -23,6 +23,7 @@ import Alos2.Proofs.MetadataNames
 import Alos2.Proofs.ProductOpen
 import Alos2.Proofs.ToXarray
 import Alos2.Proofs.ProductCached
+import Alos2.Proofs.ProductCached2
 
 namespace Alos2.C13
 
@@ -108,5 +109,40 @@ theorem product_factors (fs : Files) (rpc : Nat) :
       pure { rootAttrs := ra, summary := su, metadata := me,
              imagery := groups.foldl (fun acc kv => assocSet acc kv.1 kv.2) [] }) :=
   openProduct_eq_head fs rpc
+
+/-- the CODEC-VIEW product (what the cache-first whole-product model `Model/ProductCached.lean` returns, and what C07 / C09 / C10
+    `product_*` compare against) IS this product: if the whole-product model opens and every image group can be bridged
+    (`bridge_total` for real files) and no group name contains '/', the uncached codec-view open succeeds with the same root
+    attributes, summary, `/metadata`, and the same image groups under the same names in the same order -/
+theorem codec_view_is_product (fr : FloatRepr) (root : String) (fs : Files) (rpc : Nat) (p : Product)
+    (h : openProduct fs rpc = .ok p)
+    (ra : KVs Leaf) (su : List (String × SGroup)) (me : Grp Leaf) (imgs : List String)
+    (hh : openProductHead fs = .ok (ra, su, me, imgs))
+    (hbr : ∀ name ∈ imgs, ∀ b gname g, fs.get name = some b → openImageFile b name rpc = .ok (gname, g) →
+      (bridge fr root name gname g).isSome)
+    (hslash : ∀ name ∈ imgs, ∀ gname, groupName name = .ok gname → '/' ∉ gname.toList) :
+    ∃ pc, openProductC fr root fs rpc = .ok pc ∧ pc.rootAttrs = p.rootAttrs ∧ pc.summary = p.summary ∧ pc.metadata = p.metadata ∧
+      pc.imagery.map Prod.fst = p.imagery.map Prod.fst :=
+  openProductC_eq_openProduct fr root fs rpc p h ra su me imgs hh hbr hslash
+
+/-- … and an error of the whole-product model is the error of the codec-view open (given that every image that opens can be
+    bridged — otherwise the codec view fails earlier, at that image) -/
+theorem codec_view_error (fr : FloatRepr) (root : String) (fs : Files) (rpc : Nat) (e : Err)
+    (h : openProduct fs rpc = .error e)
+    (hbr : ∀ ra su me imgs, openProductHead fs = .ok (ra, su, me, imgs) →
+      ∀ name ∈ imgs, ∀ b gname g, fs.get name = some b → openImageFile b name rpc = .ok (gname, g) →
+        (bridge fr root name gname g).isSome) :
+    openProductC fr root fs rpc = .error e :=
+  openProductC_error fr root fs rpc e h hbr
+
+/-- non-vacuity (kernel-evaluated): the C03 witness image, as the only image file of a product, opens in the codec view at chunk
+    sizes 1 and 2, the two groups agree up to the chunk size (the `uncached` clause of `ImgOK`), and its group name "HH" has no '/' -/
+theorem codec_view_witness :
+    (uncachedC witnessFr "/root" witnessFiles witnessName 1).toOption.isSome = true ∧
+    (uncachedC witnessFr "/root" witnessFiles witnessName 2).toOption.isSome = true ∧
+    (uncachedC witnessFr "/root" witnessFiles witnessName 1).toOption.map (fun g => docText (g.withRpc 2)) =
+      (uncachedC witnessFr "/root" witnessFiles witnessName 2).toOption.map docText ∧
+    groupName witnessName = .ok "HH" :=
+  ⟨productCached_witness.1, productCached_witness.2.1, productCached_witness.2.2, witness_groupName⟩
 
 end Alos2.C13
